@@ -297,6 +297,14 @@ def run(ctx: Ctx) -> None:
                 desc = f"`{unparse(x, 40)}` completes a path only after `is_absolute()` was seen to hold"
                 from .common import dominated as _dom8
                 w = _dom8(ctx, m_, x, absolute_T) if absolute_T else [f"{m_.loc(x)}: no `is_absolute()` test in {m_.name}"]
+                if w is not None:
+                    # the test may be held in a local (`ok = p.is_absolute()` ... `if not ok: raise`): no path reaches the call in a world where
+                    # the path is relative
+                    from ..propdom import feasible_path as _fp8
+                    an8 = lambda e: "<is_absolute>" if isinstance(e, ast.Call) and isinstance(e.func, ast.Attribute) and e.func.attr == "is_absolute" else None  # noqa: E731
+                    has_test = any(an8(y) for y in m_.own_nodes())
+                    if has_test and _fp8(prog, m_, mcfg, mcfg.nodes_of(x), {"<is_absolute>": False}, an8) is None:
+                        w = None
                 if w is None:
                     rep.ok("C03.R8", m_.qname, desc, m_.loc(x))
                 else:
